@@ -27,6 +27,15 @@ pub struct Call {
     pub run: Box<dyn Fn() -> String + Send + Sync>,
     /// observation when the alphabet was built
     pub baseline: String,
+    /// member of the reduced alphabet of the depth-3 histories (one call per kind and type)
+    pub rep: bool,
+}
+
+impl Call {
+    pub fn rep_if(mut self, yes: bool) -> Call {
+        self.rep = yes;
+        self
+    }
 }
 
 pub fn call(props: &'static [&'static str], label: String, f: impl Fn() -> String + Send + Sync + 'static) -> Call {
@@ -35,7 +44,26 @@ pub fn call(props: &'static [&'static str], label: String, f: impl Fn() -> Strin
         Err(p) => format!("panic: {p}"),
     });
     let baseline = run();
-    Call { props, label, run, baseline }
+    Call { props, label, run, baseline, rep: false }
+}
+
+/// a text sink that accepts `left` more bytes and then fails
+struct Limited {
+    left: usize,
+    got: String,
+}
+
+impl std::fmt::Write for Limited {
+    fn write_str(&mut self, s: &str) -> std::fmt::Result {
+        for c in s.chars() {
+            if c.len_utf8() > self.left {
+                return Err(std::fmt::Error);
+            }
+            self.left -= c.len_utf8();
+            self.got.push(c);
+        }
+        Ok(())
+    }
 }
 
 fn two() -> A {
@@ -71,21 +99,33 @@ where
     for i in 0..b.n() {
         let u = b.units[i];
         let v = b.vname(i);
-        calls.push(call(&["C07", "C11"], format!("{key}::{v} name/symbol/si_prefix"), move || format!("{}|{}|{:?}", u.name(), u.symbol(), u.si_prefix())));
+        let r0 = i == 0;
+        calls.push(call(&["C07", "C11"], format!("{key}::{v} name/symbol/si_prefix"), move || format!("{}|{}|{:?}", u.name(), u.symbol(), u.si_prefix())).rep_if(r0));
         let sym = b.um(i).sym.clone();
         let s2 = sym.clone();
-        calls.push(call(&["C09", "C15"], format!("{key}::unit_from_symbol({sym:?})"), move || format!("{:?}", Q::unit_from_symbol(&sym))));
-        calls.push(call(&["C09", "C15"], format!("{key} Unit::from_symbol({s2:?})"), move || format!("{:?}", <Q::UnitType as Unit>::from_symbol(&s2))));
-        calls.push(call(&["C15", "C18"], format!("format!(\"{{}}\", 2.5 {key}::{v})"), move || format!("{}", Q::new(two(), u))));
-        calls.push(call(&["C15", "C18"], format!("format!(\"{{:*>+14.3}}\", 2.5 {key}::{v})"), move || format!("{:*>+14.3}", Q::new(two(), u))));
+        calls.push(call(&["C09", "C15"], format!("{key}::unit_from_symbol({sym:?})"), move || format!("{:?}", Q::unit_from_symbol(&sym))).rep_if(r0));
+        calls.push(call(&["C09", "C15"], format!("{key} Unit::from_symbol({s2:?})"), move || format!("{:?}", <Q::UnitType as Unit>::from_symbol(&s2))).rep_if(r0));
+        calls.push(call(&["C15"], format!("format!(\"{{}}\", 2.5 {key}::{v})"), move || format!("{}", Q::new(two(), u))));
+        calls.push(call(&["C15"], format!("format!(\"{{:*>+14.3}}\", 2.5 {key}::{v})"), move || format!("{:*>+14.3}", Q::new(two(), u))).rep_if(r0));
         calls.push(call(&["C15"], format!("format!(\"{{:^7}}\", {key}::{v})"), move || format!("{:^7}", u)));
+        if i < 2 {
+            // Display into a sink that fails part-way: an early return must leave nothing behind for the next call
+            for cap in [0usize, 3] {
+                calls.push(call(&["C15"], format!("write!(sink of {cap} bytes, \"{{:>9}}\", 2.5 {key}::{v})"), move || {
+                    use std::fmt::Write;
+                    let mut sink = Limited { left: cap, got: String::new() };
+                    let r = write!(sink, "{:>9}", Q::new(two(), u));
+                    format!("{:?} after {:?}", r.is_ok(), sink.got)
+                }).rep_if(r0 && cap == 3));
+            }
+        }
     }
     let u = b.units[0];
     let v = b.vname(0);
     calls.push(call(&["C08"], format!("2.5 {key}::{v} * 4"), move || {
         let q = Q::new(two(), u) * four();
         format!("{} {:?}", amt::show(q.amount()), q.unit())
-    }));
+    }).rep_if(true));
     calls.push(call(&["C08"], format!("4 * 2.5 {key}::{v}"), move || {
         let q = four() * Q::new(two(), u);
         format!("{} {:?}", amt::show(q.amount()), q.unit())
@@ -108,27 +148,28 @@ where
         let v = b.vname(i);
         calls.push(call(&["C07", "C11"], format!("{key}::{v}.scale()"), move || amt::show(u.scale())));
         let sc = u.scale();
-        calls.push(call(&["C09"], format!("{key}::unit_from_scale({})", amt::show(sc)), move || format!("{:?}", Q::unit_from_scale(sc))));
+        calls.push(call(&["C09"], format!("{key}::unit_from_scale({})", amt::show(sc)), move || format!("{:?}", Q::unit_from_scale(sc))).rep_if(i == r));
         calls.push(call(&["C09"], format!("{key} from_scale({})", amt::show(sc)), move || format!("{:?}", <Q::UnitType as LinearScaledUnit>::from_scale(sc))));
     }
     let all = thorough() && b.n() <= 16;
     let ps: Vec<(usize, usize)> = if all { (0..b.n()).flat_map(|i| (0..b.n()).map(move |j| (i, j))).collect() } else { pairs(b.n(), r) };
-    for (i, j) in ps {
+    for (k, (i, j)) in ps.into_iter().enumerate() {
+        let first = k == 0;
         let (u, w) = (b.units[i], b.units[j]);
         let (vu, vw) = (b.vname(i), b.vname(j));
-        calls.push(call(&["C01", "C18"], format!("2.5 {key}::{vu} .convert({vw})"), move || {
+        calls.push(call(&["C01"], format!("2.5 {key}::{vu} .convert({vw})"), move || {
             let q = Q::new(two(), u).convert(w);
             format!("{} {:?}", amt::show(q.amount()), q.unit())
-        }));
-        calls.push(call(&["C02", "C18"], format!("2.5 {key}::{vu} ==,partial_cmp 4 {vw}"), move || {
+        }).rep_if(first));
+        calls.push(call(&["C02"], format!("2.5 {key}::{vu} ==,partial_cmp 4 {vw}"), move || {
             let (x, y) = (Q::new(two(), u), Q::new(four(), w));
             format!("{} {:?}", x == y, PartialOrd::partial_cmp(&x, &y))
-        }));
-        calls.push(call(&["C03", "C18"], format!("2.5 {key}::{vu} +,-,/ 4 {vw}"), move || {
+        }).rep_if(first));
+        calls.push(call(&["C03"], format!("2.5 {key}::{vu} +,-,/ 4 {vw}"), move || {
             let (x, y) = (Q::new(two(), u), Q::new(four(), w));
             let (s, d) = (x + y, x - y);
             format!("{} {:?} | {} {:?} | {}", amt::show(s.amount()), s.unit(), amt::show(d.amount()), d.unit(), amt::show(x / y))
-        }));
+        }).rep_if(first));
     }
 }
 
@@ -152,7 +193,7 @@ where
                 let d = guard(|| x - y).map(|s| format!("{} {:?}", amt::show(s.amount()), s.unit()));
                 let q = guard(|| x / y).map(amt::show);
                 format!("{:?} | {:?} | {:?}", s.ok(), d.ok(), q.ok())
-            }));
+            }).rep_if(i == 0 && j == 1));
         }
     }
 }
@@ -205,7 +246,7 @@ where
             calls.push(call(&["C04", "C05", "C18"], label, move || {
                 let (a, b) = (owned(L::new(two(), u), X::new(four(), w)), borrowed(L::new(two(), u), X::new(four(), w)));
                 format!("{} {:?} | {} {:?}", amt::show(a.amount()), a.unit(), amt::show(b.amount()), b.unit())
-            }));
+            }).rep_if(i == 0 && j == 0));
         }
     }
 }
@@ -234,7 +275,7 @@ where
                     r, amt::show(a.amount()), a.unit(), amt::show(b.amount()), b.unit(), amt::show(c.amount()), c.unit(),
                     amt::show(rr.term_amount()), rr.term_unit(), amt::show(rr.per_unit_multiple()), rr.per_unit()
                 )
-            }));
+            }).rep_if(i == 0 && j == 0));
         }
     }
 }
@@ -246,7 +287,7 @@ fn tables(calls: &mut Vec<Call>) {
                 let (u, w) = (b.units[i], b.units[j]);
                 calls.push(call(&["C14"], format!("TEMPERATURE_CONVERTER.convert(2.5 {}, {})", b.vname(i), b.vname(j)), move || {
                     format!("{:?}", TEMPERATURE_CONVERTER.convert(&Temperature::new(two(), u), w).map(|r| (amt::show(r.amount()), r.unit())))
-                }));
+                }).rep_if(i == 0 && j == 1));
             }
         }
     }
@@ -266,10 +307,10 @@ fn tables(calls: &mut Vec<Call>) {
                     let (u, w) = (b.units[i], b.units[j]);
                     calls.push(call(&["C14"], format!("table3.convert(2.5 {}, {})", b.vname(i), b.vname(j)), move || {
                         format!("{:?}", ConversionTable::<SynNoRef, 3> { mappings: m3 }.convert(&SynNoRef::new(two(), u), w).map(|r| (amt::show(r.amount()), r.unit())))
-                    }));
+                    }).rep_if(i == 0 && j == 1));
                     calls.push(call(&["C14"], format!("table4.convert(2.5 {}, {})", b.vname(i), b.vname(j)), move || {
                         format!("{:?}", ConversionTable::<SynNoRef, 4> { mappings: m4 }.convert(&SynNoRef::new(two(), u), w).map(|r| (amt::show(r.amount()), r.unit())))
-                    }));
+                    }).rep_if(i == 0 && j == 1));
                 }
             }
         }
@@ -279,7 +320,7 @@ fn tables(calls: &mut Vec<Call>) {
 fn prefixes(calls: &mut Vec<Call>) {
     for p in SIPrefix::iter().copied() {
         let (abbr, exp) = (p.abbr(), p.exp());
-        calls.push(call(&["C16"], format!("SIPrefix::from_abbr({abbr:?})"), move || format!("{:?}", SIPrefix::from_abbr(abbr))));
+        calls.push(call(&["C16"], format!("SIPrefix::from_abbr({abbr:?})"), move || format!("{:?}", SIPrefix::from_abbr(abbr))).rep_if(matches!(exp, 3 | 0 | -6)));
         calls.push(call(&["C16"], format!("SIPrefix::from_exp({exp})"), move || format!("{:?}", SIPrefix::from_exp(exp))));
         calls.push(call(&["C16"], format!("{p:?} name/abbr/exp/factor"), move || format!("{}|{}|{}", p.name(), p.abbr(), p.exp())));
     }
@@ -315,6 +356,42 @@ pub fn collect_for(prop: &'static str, blocks: &mut Vec<Block>, setup: &mut Repo
         let (cs, vs) = (calls.clone(), victims.clone());
         blocks.push(Block::new(format!("{prop}/history/{lo}-{hi}"), move |rep| block(prop, &cs, &vs, lo, hi, rep)));
         from = hi;
+    }
+    // depth 3 over the reduced alphabet
+    let reps: Arc<Vec<usize>> = Arc::new((0..calls.len()).filter(|&i| calls[i].rep).collect());
+    let victims3: Arc<Vec<usize>> = Arc::new(if thorough() { victims.to_vec() } else { victims.iter().copied().filter(|&i| calls[i].rep).collect() });
+    setup.count("history_reduced_alphabet", reps.len() as u64);
+    setup.count("history_victims_depth3", victims3.len() as u64);
+    let (mut from, chunk3) = (0usize, 8usize);
+    while from < reps.len() {
+        let (lo, hi) = (from, (from + chunk3).min(reps.len()));
+        let (cs, rs, vs) = (calls.clone(), reps.clone(), victims3.clone());
+        blocks.push(Block::new(format!("{prop}/history3/{lo}-{hi}"), move |rep| block3(prop, &cs, &rs, &vs, lo, hi, rep)));
+        from = hi;
+    }
+}
+
+/// histories of depth 3 over the reduced alphabet (one call per kind and type): c0; c1; c2 with c0, c1 ANY
+/// representative call and c2 a representative call covered by `prop` (thorough: any call covered by `prop`)
+fn block3(prop: &str, calls: &[Call], reps: &[usize], victims: &[usize], lo: usize, hi: usize, rep: &mut Report) {
+    let class = format!("{prop}/history/result-depends-on-two-preceding-calls");
+    for &i0 in &reps[lo..hi] {
+        rep.inc("states");
+        for &i1 in reps {
+            for &k in victims {
+                let c2 = &calls[k];
+                rep.inc("transitions");
+                rep.inc("histories_depth3");
+                let _ = (calls[i0].run)();
+                let _ = (calls[i1].run)();
+                let third = (c2.run)();
+                if third != c2.baseline {
+                    rep.violation(&class, case("history", "c0; c1; c2", json!({"first": calls[i0].label, "second": calls[i1].label, "then": c2.label})), third, c2.baseline.clone());
+                } else {
+                    rep.inc("sensitive");
+                }
+            }
+        }
     }
 }
 
